@@ -79,6 +79,7 @@ class Generator:
         self.tpath = template_path
         self.canary = canary
         self.inplace = set(inplace)
+        self.included = []
         self.rules = Rules()
         self.sources = {}
         self.fns = []
@@ -95,7 +96,7 @@ class Generator:
 
     # ------------------------------------------------------------------
     def generate(self):
-        lines = open(self.tpath, encoding="utf-8").read().split("\n")
+        lines = self.read_template(self.tpath, top=True)
         i = 0
         n = len(lines)
         while i < n:
@@ -120,6 +121,34 @@ class Generator:
                 self.chunks.append(Chunk(ln + "\n", "template"))
                 i += 1
         return self.assemble()
+
+    def read_template(self, path, top=False, seen=()):
+        """Template lines with `//@ include <file>` spliced in (the part of <file> between the
+        `//@@ body-begin` and `//@@ body-end` markers), recursively; each file at most once."""
+        out = []
+        raw = open(path, encoding="utf-8").read().split("\n")
+        if not top:
+            try:
+                a = next(i for i, l in enumerate(raw) if l.strip() == "//@@ body-begin")
+                b = next(i for i, l in enumerate(raw) if l.strip() == "//@@ body-end")
+            except StopIteration:
+                raise ExtractError("template %s has no //@@ body-begin / body-end markers" % path)
+            raw = raw[a + 1:b]
+        for ln in raw:
+            st = ln.strip()
+            if st.startswith("//@ include "):
+                inc = os.path.join(os.path.dirname(self.tpath), st[len("//@ include "):].strip())
+                if inc in self.included:
+                    continue
+                self.included.append(inc)
+                out.append("// ======== included from %s ========" % os.path.basename(inc))
+                out.extend(self.read_template(inc))
+                out.append("// ======== end of %s ========" % os.path.basename(inc))
+            elif st in ("//@@ body-begin", "//@@ body-end"):
+                continue
+            else:
+                out.append(ln)
+        return out
 
     def parse_sel(self, sel):
         parts = [p.strip() for p in sel.split("|")]
